@@ -8,7 +8,8 @@
 (* components it names.  Every program must be accepted, lower through every stage without internal error,       *)
 (* run to the predicted exit in the interpreter, and its real SPS-low program must do the same in ZySps.tla.     *)
 EXTENDS Naturals, Sequences, TLC, Json
-CONSTANT MaxArity
+CONSTANT MaxArity,
+         Family      \* "lower": the C18/C19 programs; "mon": the C20 programs (tuples built and taken apart inside a monadic block)
 Arities == 2..MaxArity
 Where == {"entry", "afterdo", "inthunk"}
 Then == {"exit", "match", "alloc", "unpackrest"}
@@ -23,13 +24,30 @@ Exit(p) == IF p.then = "unpackrest" THEN Sum(1, p.n)
            ELSE Sum(1, p.k)
 Elements(p) == p.k + 1      \* words the pattern takes apart
 Partial(p) == Elements(p) < p.n
+(* ---- C20: the same tuples inside an @[monadic] block ------------------------------------------------------------ *)
+(* The block builds (1, .., n) - as the operand of `ret` bound by `do`, by `let`, directly as the scrutinee, as the     *)
+(* payload of a constructor, or as the argument of a function of the block -, takes it apart with a full or partial     *)
+(* tuple pattern and returns ONE named component.  Component i has the value i, so the reference value is the index:    *)
+(* a translation that permutes the items of a tuple value (or of a tuple pattern) returns another number.               *)
+MonBuild == {"doret", "let", "direct", "ctor", "arg"}
+MonPrograms == {[fam |-> "mon", n |-> n, k |-> k, build |-> b, pick |-> j] :
+                  n \in Arities, k \in 1..MaxArity, b \in MonBuild, j \in 1..MaxArity}
+\* k = n: the pattern names every component; k < n: (x1, .., xk, rest); only a named component can be returned
+\* (a constructor payload is matched in full)
+MonValid(p) == p.k <= p.n /\ p.pick <= p.k /\ (p.build = "ctor" => p.k = p.n)
+MonValue(p) == p.pick
 VARIABLES stage, prog
 Init == stage = "pick" /\ prog \in {[n |-> n, k |-> 1, where |-> "entry", then |-> "exit"] : n \in Arities}
-Next == stage = "pick" /\ stage' = "done" /\ prog' \in {p \in Programs : p.n = prog.n /\ Valid(p)}
+Next == stage = "pick" /\ stage' = "done" /\
+        IF Family = "mon" THEN prog' \in {p \in MonPrograms : p.n = prog.n /\ MonValid(p)}
+        ELSE prog' \in {p \in Programs : p.n = prog.n /\ Valid(p)}
 Spec == Init /\ [][Next]_<<stage, prog>>
 \* both parities of (arity - elements) occur for every `then`: the generator is not blind to the odd case
 Covers == stage = "pick" => \A t \in Then : \E p, q \in {x \in Programs : Valid(x)} :
             p.then = t /\ q.then = t /\ Partial(p) /\ Partial(q) /\ (p.n - Elements(p)) % 2 = 0 /\ (q.n - Elements(q)) % 2 = 1
-Report == stage = "done" => PrintT(<<"REPLAY", ToJson([n |-> prog.n, k |-> prog.k, where |-> prog.where, then |-> prog.then,
+\* every position of every arity is returned by some program, under every way of building the tuple
+MonCovers == stage = "pick" => \A n \in Arities, j \in 1..MaxArity, b \in MonBuild : j <= n =>
+               \E p \in MonPrograms : MonValid(p) /\ p.n = n /\ p.pick = j /\ p.build = b
+Report == stage = "done" => IF Family = "mon" THEN PrintT(<<"REPLAY", ToJson(prog @@ [val |-> MonValue(prog)])>>) ELSE PrintT(<<"REPLAY", ToJson([n |-> prog.n, k |-> prog.k, where |-> prog.where, then |-> prog.then,
                                                       exit |-> Exit(prog), partial |-> Partial(prog)])>>)
 ================================================================================
